@@ -325,15 +325,23 @@ def gen_small(comb, cont, n, maxlen, maxops, tag, with_drop=True):
 
 
 # ---------------------------------------------------------------- concurrent streams
-CO_STACKS = ["", "lim", "take", "enum", "map", "map.lim", "lim.map", "take.lim", "lim.take", "enum.map", "map.take", "enum.take",
-             "take.enum", "lim.enum.map",
-             # the same adapter twice: the effective take is the smaller bound, the effective limit the outer one (Limit::concurrency_limit)
-             "take.take", "take.map.take", "take.enum.take", "lim.lim", "lim.map.lim",
-             # enumerate above a map (the futures below it complete in any order)
-             "map.enum", "lim.map.enum", "map.enum.take", "take.map", "enum.lim"]
+def all_co_stacks():
+    """every order of at most three adapters out of limit / take / enumerate / map, with at most one enumerate and one map (the acceptor has one
+       closure stage below the terminal one) and up to two limits and takes: 61 stacks.  harness/src/co_stacks.rs is generated from this list
+       (tools/mkstacks.py)."""
+    import itertools
+    out = []
+    for L in range(0, 4):
+        for seq in itertools.product(["lim", "take", "enum", "map"], repeat=L):
+            if seq.count("enum") > 1 or seq.count("map") > 1 or seq.count("lim") > 2 or seq.count("take") > 2:
+                continue
+            out.append(".".join(seq))
+    return out
 
 
-CO_RCOL_STACKS = ["map", "map.lim", "lim.map", "enum.map", "map.take", "lim.enum.map"]
+CO_STACKS = all_co_stacks()
+# collect::<Result<Vec<_>, E>>(): the map closure is the fallible one, so there is a map and no enumerate above it
+CO_RCOL_STACKS = [x for x in CO_STACKS if "map" in x.split(".") and "enum" not in x.split(".")[x.split(".").index("map"):]]
 
 
 def gen_co(rng, count, tag, terms=("fe", "tfe", "col"), stacks=None, drop=0.015, panic=0.02, allready=False):
